@@ -138,6 +138,8 @@ done:
 			f()
 		case <-time.After(time.Minute):
 			scan()
+		case <-verifScanTick():
+			scan()
 		case <-m.chScan:
 			scan()
 		case key := <-m.chCSStopped:
